@@ -85,7 +85,10 @@ CLAIMS["C12"] = ("proof", "Lean 4 theorems on shared descriptors, value pool and
 CLAIMS["C13"] = ("proof", "Lean 4 least-fixpoint proof of the dependency closure + spec-level dependency theorems + correspondence",
                  "closure_lfp (the fuel-130 loop terminates and yields the least mask closed under the declared dependencies, for chains, diamonds, cycles; "
                  "ids < 128), closure_idempotent_monotone, addDependency_stores_closure, archetype_masks_closed, gain_master_has_dependents (create / assign / "
-                 "builder / deferred create+assign), remove_dependent_noop, remove_master_keeps_dependents; " + _WM_TIE + " with random dependency graphs.",
+                 "builder / deferred create+assign), remove_dependent_noop, remove_master_keeps_dependents; for archetypes that predate a "
+                 "declaration (late declarations, no closedness assumed): pack_final_eq_seqMask, immediate_ops_mask, deferred_pack_mask, "
+                 "deferred_pack_mask_eq_immediate (a deferred pack gives the entity the component set the same commands give when "
+                 "issued immediately); " + _WM_TIE + " with random dependency graphs, late declarations also for held masters.",
                  WORLD_NOTE + "; DepsBounded (component ids < 128, the mask width)")
 CLAIMS["C08"] = ("proof", "Lean 4 invariant proofs over a transition-system model of the dispatcher + trace acceptance against the real dispatcher (sched hook)",
                  "at_most_once, wait_post, serial_fifo_exclusive, thread_id_unique, parallelFor_partition, shutdown_safe, no_deadlock and wait_returns (under weak "
